@@ -90,3 +90,37 @@ func init() {
 		return Tuple{year, month, day, yday}
 	}
 }
+
+func init() {
+	// crypto/sha256.block has an assembly body on amd64: run the portable Go body instead.
+	intrinsics["crypto/sha256.block"] = func(fr *frame, args []Value) Value {
+		x := fr.x
+		p := x.prog.ImportedPackage("crypto/sha256")
+		if p == nil || p.Func("blockGeneric") == nil {
+			x.unsupported("crypto/sha256.blockGeneric not found")
+		}
+		return x.call(fr, 0, p.Func("blockGeneric"), args)
+	}
+	// crypto/rand.Read: the executor's randomness is a byte pattern that differs from call to call (the harnesses that use it do
+	// not depend on the values; natively the real generator runs).
+	intrinsics["crypto/rand.Read"] = func(fr *frame, args []Value) Value {
+		x := fr.x
+		sl := args[0].(Slice)
+		x.randSeq++ // every call yields different bytes (fresh nonces stay fresh)
+		for i := range sl.S {
+			x.store(&sl.S[i], x.ts.BV(uint64(0xa5^byte(i*37)^byte(x.randSeq*101)), 8))
+		}
+		return Tuple{x.ts.BV(uint64(len(sl.S)), 64), Iface{}}
+	}
+}
+
+func init() {
+	nop := func(fr *frame, args []Value) Value { return nil }
+	intrinsics["crypto/internal/boring/sig.StandardCrypto"] = nop
+	intrinsics["crypto/internal/boring/sig.BoringCrypto"] = nop
+	intrinsics["crypto/internal/boring/sig.FIPSOnly"] = nop
+}
+
+func init() {
+	intrinsics["crypto.RegisterHash"] = func(fr *frame, args []Value) Value { return nil }
+}
